@@ -639,7 +639,7 @@ fn make_prediction<F: Float, L: Label>(
 ) -> L {
     if node.leaf_node {
         node.prediction.clone()
-    } else if x[node.feature_idx] < node.split_value {
+    } else if x[node.feature_idx] <= node.split_value {
         make_prediction(x, node.left_child.as_ref().unwrap())
     } else {
         make_prediction(x, node.right_child.as_ref().unwrap())
